@@ -39,6 +39,7 @@ pub fn generate(prop: &str, tier: &str, r: &mut Rng, out: &mut Vec<String>) -> G
             tag_len_grid(out);
             lang_pairs(out);
             inflating(out);
+            multibyte(out);
             token_sequences(out, if thorough { 5 } else { 4 });
             mutations(out, r, if thorough { 1_000_000 } else { 10_000 });
             for (kind, unit) in FAMILIES {
@@ -57,7 +58,7 @@ pub fn generate(prop: &str, tier: &str, r: &mut Rng, out: &mut Vec<String>) -> G
                 }
             }
             GenInfo {
-                rule: "enumerations: every string of <= 2 bytes after a valid header and 3-byte strings over a tier-dependent third-byte set; every (tag 0x00-0xff) x (length 0-16, 0xffff) x fill through the value decoder and as a one-attribute message (exact and off-by-one declared length); every inner length pair of the with-language syntaxes x total length 0-16; long runs of non-UTF-8 bytes (21840-65535) in every string-carrying syntax, names included (text that triples when decoded); all sequences of <= k tokens over a 16-token alphabet (k=4 quick, 5 thorough); seeded grammar-aware mutations of well-formed messages; structural bombs (10 families, sizes up to 1 MiB) in a child process. Non-trivial = distinct case lines".into(),
+                rule: "enumerations: every string of <= 2 bytes after a valid header and 3-byte strings over a tier-dependent third-byte set; every (tag 0x00-0xff) x (length 0-16, 0xffff) x fill through the value decoder and as a one-attribute message (exact and off-by-one declared length); every inner length pair of the with-language syntaxes x total length 0-16; long runs of non-UTF-8 bytes (21840-65535) in every string-carrying syntax, names included (text that triples when decoded); valid multi-byte text (2-, 3- and 4-byte characters at every alignment, 300 to 65535 octets) that puts a character across every byte offset; all sequences of <= k tokens over a 16-token alphabet (k=4 quick, 5 thorough); seeded grammar-aware mutations of well-formed messages; structural bombs (10 families, sizes up to 1 MiB) in a child process. Non-trivial = distinct case lines".into(),
                 exhaustive: false,
             }
         }
@@ -300,6 +301,41 @@ pub fn generate(prop: &str, tier: &str, r: &mut Rng, out: &mut Vec<String>) -> G
                 let cut = b.len() - p.len();
                 out.push(line("sync", &[crate::sources::Ev::Data(b[..cut].to_vec()), crate::sources::Ev::Data(b[cut..].to_vec())]));
             }
+            {
+                // messages with more than 1024 / 4096 tags (one wide set; many attributes; many groups), whole and in
+                // seeded fragments, with a payload that must come back untouched
+                for n in [1023usize, 1024, 1025, 2500, 4097] {
+                    let mut wide = vec![1u8, 1, 0, 2, 0, 0, 0, 1, 4, 0x21, 0, 1, b'a', 0, 4, 0, 0, 0, 0];
+                    for i in 0..n as u32 {
+                        wide.extend_from_slice(&[0x21, 0, 0, 0, 4]);
+                        wide.extend_from_slice(&i.to_be_bytes());
+                    }
+                    wide.push(3);
+                    let mut many = vec![1u8, 1, 0, 2, 0, 0, 0, 1, 1];
+                    for i in 0..n {
+                        let name = format!("a{}", i);
+                        many.push(0x22);
+                        many.extend_from_slice(&(name.len() as u16).to_be_bytes());
+                        many.extend_from_slice(name.as_bytes());
+                        many.extend_from_slice(&[0, 1, 1]);
+                    }
+                    many.push(3);
+                    let mut groups = vec![1u8, 1, 0, 2, 0, 0, 0, 1];
+                    for i in 0..n {
+                        groups.push([1u8, 2, 4, 5][i % 4]);
+                    }
+                    groups.push(3);
+                    for mut b in [wide, many, groups] {
+                        let mut rr = r.fork();
+                        b.extend_from_slice(&[0xaa, 3, 1, 0xbb]);
+                        out.push(line("sync", &[crate::sources::Ev::Data(b.clone())]));
+                        out.push(line("async", &[crate::sources::Ev::Data(b.clone())]));
+                        let evs = random_composition(&mut rr, &b);
+                        out.push(line("sync", &with_interrupts(&mut rr, evs.clone())));
+                        out.push(line("async", &with_pending(&mut rr, evs)));
+                    }
+                }
+            }
             if thorough {
                 for _ in 0..20 {
                     let mut rr = r.fork();
@@ -309,7 +345,7 @@ pub fn generate(prop: &str, tier: &str, r: &mut Rng, out: &mut Vec<String>) -> G
                     out.push(line("sync", &random_composition(&mut rr, &b)));
                 }
             }
-            GenInfo { rule: "well-formed messages x payloads (empty, one byte, bytes that look like IPP tags, random up to 2000 bytes; MiBs in the thorough tier) x fragmentations (every composition of the short messages, one byte at a time, uniform, seeded random) with Interrupted results before any read for the blocking reader and not-ready results for the async reader; the result must equal the parse of the unfragmented bytes and the remaining reader must yield exactly the payload; non-trivial = distinct scripts".into(), exhaustive: false }
+            GenInfo { rule: "well-formed messages (incl. messages of 1023-4097 values, attributes or groups) x payloads (empty, one byte, bytes that look like IPP tags, random up to 2000 bytes; MiBs in the thorough tier) x fragmentations (every composition of the short messages, one byte at a time, uniform, seeded random) with Interrupted results before any read for the blocking reader and not-ready results for the async reader; the result must equal the parse of the unfragmented bytes and the remaining reader must yield exactly the payload; non-trivial = distinct scripts".into(), exhaustive: false }
         }
         "C07" => {
             use crate::gen3::*;
@@ -367,7 +403,15 @@ pub fn generate(prop: &str, tier: &str, r: &mut Rng, out: &mut Vec<String>) -> G
             let lim = Limits { max_depth: 2, boundary: false };
             for i in 0..n {
                 let mut rr = r.fork();
-                let m = gen_msg(&mut rr, &lim);
+                let mut m = gen_msg(&mut rr, &lim);
+                if i % 8 == 5 {
+                    // no group at all, no operation group, or the operation group not first
+                    match rr.below(3) {
+                        0 => m.groups.clear(),
+                        1 => m.groups.retain(|g| g.0 != 1),
+                        _ => m.groups.reverse(),
+                    }
+                }
                 let kind = ["none", "sync", "async"][i % 3];
                 let cons = if (i / 3) % 2 == 0 { "read" } else { "aread" };
                 let plen = match rr.below(6) {
@@ -394,7 +438,7 @@ pub fn generate(prop: &str, tier: &str, r: &mut Rng, out: &mut Vec<String>) -> G
                     if evs.is_empty() { "" } else { " " }, crate::sources::show_events(&evs),
                     if sizes.is_empty() { "" } else { " " }, sizes.join(" ")));
             }
-            GenInfo { rule: "seeded random messages x payload source kind {none, blocking, async} x payload contents (0 B to 70 KB; MiBs in the thorough tier) delivered in random fragments with not-ready results (async; ignored by blocking) and Interrupted results (blocking) x consumer {Read, AsyncRead} x sequences of 0-39 read-buffer sizes from 1 B to 64 KiB (then 4096); the drained bytes and the way the stream ends are compared with header+attributes ++ payload and with the model; non-trivial = distinct case lines".into(), exhaustive: false }
+            GenInfo { rule: "seeded random messages (every eighth without groups, without an operation group, or with it not first) x payload source kind {none, blocking, async} x payload contents (0 B to 70 KB; MiBs in the thorough tier) delivered in random fragments with not-ready results (async; ignored by blocking) and Interrupted results (blocking) x consumer {Read, AsyncRead} x sequences of 0-39 read-buffer sizes from 1 B to 64 KiB (then 4096); the drained bytes and the way the stream ends are compared with header+attributes ++ payload and with the model; non-trivial = distinct case lines".into(), exhaustive: false }
         }
         "C20" => {
             let n = if thorough { 30_000 } else { 3_000 };
@@ -554,6 +598,43 @@ pub fn generate(prop: &str, tier: &str, r: &mut Rng, out: &mut Vec<String>) -> G
                     out.push(format!("wire {} -", show_wmsg(&members)));
                 }
             }
+            {
+                // every byte value at every position where a tag is expected in a message with two groups, a set,
+                // and a collection: after the header, after a delimiter, after a value, after an additional value,
+                // after a member name, after a member value, after the end of a collection
+                let tok = |tag: u8, name: &[u8], body: &[u8]| -> Vec<u8> {
+                    let mut t = vec![tag];
+                    t.extend_from_slice(&(name.len() as u16).to_be_bytes());
+                    t.extend_from_slice(name);
+                    t.extend_from_slice(&(body.len() as u16).to_be_bytes());
+                    t.extend_from_slice(body);
+                    t
+                };
+                let pieces: Vec<Vec<u8>> = vec![
+                    vec![1, 1, 0, 2, 0, 0, 0, 1], vec![1], tok(0x21, b"a", &[0, 0, 0, 1]), tok(0x21, b"", &[0, 0, 0, 2]), vec![2],
+                    tok(0x34, b"c", b""), tok(0x4a, b"", b"m"), tok(0x22, b"", &[1]), tok(0x37, b"", b""), tok(0x44, b"k", b"v"), vec![3],
+                ];
+                let mut offs = vec![];
+                let mut msg: Vec<u8> = vec![];
+                for (i, pc) in pieces.iter().enumerate() {
+                    if i > 0 {
+                        offs.push(msg.len());
+                    }
+                    msg.extend_from_slice(pc);
+                }
+                for &o in &offs {
+                    for b in 0..=255u8 {
+                        // the byte replaces the tag that stood there …
+                        let mut m = msg.clone();
+                        m[o] = b;
+                        out.push(format!("tagpos {} {}", o, hex(&m)));
+                        // … or is inserted before it
+                        let mut m2 = msg.clone();
+                        m2.insert(o, b);
+                        out.push(format!("tagpos {} {}", o, hex(&m2)));
+                    }
+                }
+            }
             for _ in 0..n {
                 let mut rr = r.fork();
                 let w = crate::wiregen::gen_wmsg(&mut rr, &lim);
@@ -561,7 +642,7 @@ pub fn generate(prop: &str, tier: &str, r: &mut Rng, out: &mut Vec<String>) -> G
                 out.push(format!("wire {} {}", crate::wiregen::show_wmsg(&w), hex(&p)));
             }
             GenInfo {
-                rule: "seeded random wire trees from the RFC 8010 grammar (0-4 groups incl. repeated/empty, 0-4 attributes with 1-4 values, every tag 0x10-0x4a, syntactically valid bodies incl. non-UTF-8 text and rare 255/256/65535-byte bodies, nested collections with multi-valued and duplicate members, duplicate attribute names; ~0.8% of the choices deliberately malformed), serialised by the harness's own serializer, preceded by large shallow trees (1100/2500 values, attributes, groups, members); non-trivial = distinct case lines the parser accepts or rejects with a definite outcome".into(),
+                rule: "seeded random wire trees from the RFC 8010 grammar (0-4 groups incl. repeated/empty, 0-4 attributes with 1-4 values, every tag 0x10-0x4a, syntactically valid bodies incl. non-UTF-8 text and rare 255/256/65535-byte bodies, nested collections with multi-valued and duplicate members, duplicate attribute names; ~0.8% of the choices deliberately malformed), serialised by the harness's own serializer, preceded by large shallow trees (1100/2500 values, attributes, groups, members) and by every byte value 0x00-0xff written over, or inserted before, each of the ten tag positions of a message with two groups, a set and a collection (both parsers must reject, naming the byte, exactly when it lies outside 0x01-0x05 and 0x10-0x4a); non-trivial = distinct case lines the parser accepts or rejects with a definite outcome".into(),
                 exhaustive: false,
             }
         }
@@ -575,9 +656,18 @@ pub fn generate(prop: &str, tier: &str, r: &mut Rng, out: &mut Vec<String>) -> G
                     out.push(format!("roundtrip {} 0301", show_msg(&m)));
                 }
             }
-            for _ in 0..n {
+            for i in 0..n {
                 let mut rr = r.fork();
-                let m = gen_msg(&mut rr, &lim);
+                let mut m = gen_msg(&mut rr, &lim);
+                if i % 8 == 7 {
+                    // outside the constructors' shape: the operation group not first, absent, or no group at all
+                    match rr.below(4) {
+                        0 => m.groups.rotate_left(1),
+                        1 => m.groups.reverse(),
+                        2 => m.groups.retain(|g| g.0 != 1),
+                        _ => m.groups.insert(0, (*rr.pick(&[2u8, 4, 5]), gen_attrs(&mut rr, &lim, 3))),
+                    }
+                }
                 let p = gen_payload(&mut rr);
                 if prop == "C03" {
                     out.push(format!("encoded {}", show_msg(&m)));
@@ -586,7 +676,7 @@ pub fn generate(prop: &str, tier: &str, r: &mut Rng, out: &mut Vec<String>) -> G
                 }
             }
             GenInfo {
-                rule: "a deterministic boundary suite (every string-carrying kind, names and member names at lengths 0/1/127/128/255/256/257/32767/32768/32769/65534/65535, with-language totals up to 65535, names that differ from the specially ordered operation attributes by case or one character, those names in other groups) followed by seeded random messages of the public value model (1-5 groups starting with the operation group, repeated/empty groups, 0-6 attributes, all 22 value kinds, homogeneous and mixed sets, collections to the tier's depth with multi-valued members, rare 255/256/65535-byte strings) with random payloads; each built with fresh randomly keyed hash maps; non-trivial = distinct effective case lines".into(),
+                rule: "a deterministic boundary suite (every string-carrying kind, names and member names at lengths 0/1/127/128/255/256/257/32767/32768/32769/65534/65535, with-language totals up to 65535, names that differ from the specially ordered operation attributes by case or one character, those names in other groups) followed by seeded random messages of the public value model (1-5 groups starting with the operation group - every eighth message with the operation group elsewhere, absent, or no group at all; such messages must read back with the first operation group moved to the front and nothing else changed -, repeated/empty groups, 0-6 attributes, all 22 value kinds, homogeneous and mixed sets, collections to the tier's depth with multi-valued members, rare 255/256/65535-byte strings) with random payloads; each built with fresh randomly keyed hash maps; non-trivial = distinct effective case lines".into(),
                 exhaustive: false,
             }
         }
